@@ -806,6 +806,22 @@ Definition jump_site (op : cmpop) : bytes -> value -> value -> res bool :=
   | OGt => site_JumpGreater | OLe => site_JumpLessOrEqual | OGe => site_JumpGreaterOrEqual
   end.
 
+(* internal/compiler/compiler.go condition(expr, invert): what runs when a comparison is a
+   condition; the result here is whether the guarded code is entered.
+   Direct position (the bottom test of while / do-while / for): the fused jump of the operator.
+   Inverted position (if, ?:, the top test of while / for): == and != use the fused jump of
+   the other one and skip the guarded code when it is taken; an ordering comparison is NOT
+   fused with its opposite (wrong for NaN): it is evaluated as an expression and tested with
+   JumpFalse, i.e. value.boolean of the pushed 0/1. *)
+Definition cond_direct (op : cmpop) : bytes -> value -> value -> res bool := jump_site op.
+
+Definition cond_inverted (op : cmpop) (cf : bytes) (l r : value) : res bool :=
+  match op with
+  | OEq => do b <- site_JumpNotEquals cf l r; Ok (negb b)
+  | ONe => do b <- site_JumpEquals cf l r; Ok (negb b)
+  | _ => do v <- expr_site op cf l r; Ok (v_boolean v)
+  end.
+
 (* a value takes part in a comparison as a number: it is a number, unset, or
    input-derived text that parseFloat accepts *)
 Definition numeric_operand (v : value) : option fnum :=
